@@ -124,8 +124,6 @@ func (l *limitedBuf) String() string {
 
 // ---------- case generation ----------
 
-var capMasks []uint32
-
 func (g *gen) mask() uint32 {
 	switch g.n(6) {
 	case 0:
@@ -528,6 +526,7 @@ func main() {
 
 	// ---- start-up stream
 	t0 = time.Now()
+	startupFlakes := 0
 	for i := 0; i < nStart; i++ {
 		sc := SCase{Mask: g.mask(), DisableKitty: g.n(4) == 0, Rows: 5 + g.n(40), Cols: 10 + g.n(150),
 			XTVersion: g.pick("", "fake(1.0)", "kitty(0.31.0)", "tmux 3.4", "tmux 3.4a"), CursorStyle: g.n(9) - 2}
@@ -558,7 +557,15 @@ func main() {
 			}
 			tags = append(tags, "typeahead")
 		}
+		// a start-up run is repeated when two observations of it differ (a machine stall can hit
+		// New's 3 s deadline or the 50 ms cursor query): majority of three
 		res := runStartup(sc)
+		if r2 := runStartup(sc); r2.term(sc) != res.term(sc) {
+			startupFlakes++
+			if r3 := runStartup(sc); r3.term(sc) == r2.term(sc) {
+				res = r2
+			}
+		}
 		js := map[string]interface{}{"case": sc, "observed": res}
 		if sc.Pre != "" || sc.Mid != "" {
 			js["class"] = "startup-typeahead"
